@@ -171,6 +171,53 @@ def run(ctx):
             if not any(isinstance(s, tuple) and s and s[0] in ('declare-datatypes', 'define-funs-rec') for s in shapes):
                 for t in (a, b):
                     tcalls.append((50, [w_shapes(shapes), [[w_str(n), w_shape(so)] for n, so in scope], w_shape(t)]))
+    # (0) TIE-C: the rewrite models of Model/Rewrites.v against filter + mutations of the implementation, on every node
+    RW = {'BoolDoubleNegation': 60, 'BoolDeMorgan': 61, 'BoolEliminateFalseEquality': 62, 'BoolEliminateImplication': 63,
+          'BoolXOREliminateBinary': 64, 'ArithmeticNegateRelation': 65, 'BVNormalizeConstants': 66, 'BVDoubleNegation': 67,
+          'BVElimBVComp': 68, 'BVEvalExtend': 69, 'BVExtractConstants': 70, 'BVExtractZeroExtend': 71, 'BVIteToBVComp': 72,
+          'BVReflexiveNand': 73, 'BvMergeExtend': 74}
+    from ddsmt import mutators_boolean, mutators_arithmetic, mutators_bv
+    objs = {}
+    for mod in (mutators_boolean, mutators_arithmetic, mutators_bv):
+        for c in RW:
+            if hasattr(mod, c):
+                objs[c] = getattr(mod, c)()
+    rcalls, rmeta = [], []
+    malformed = ['(assert (not))', '(assert (not (not)))', '(assert (bvneg))', '(assert (bvnot (bvnot)))', '(assert (= #b1 (bvcomp)))',
+                 '(assert ((_ zero_extend 2)))', '(assert ((_ extract 1) #b01))', '(assert ((_ extract 5 2) #b01))', '(assert (ite (= a b)))',
+                 '(assert ((_ zero_extend x) #b01))', '(assert (_ bvX 3))', '(assert ((_ sign_extend 1) ((_ sign_extend 1))))', '(assert (=>))',
+                 '(assert (= false))', '(assert (xor a))', '(assert (not (< )))', '(assert ((_ extract 3 0) ((_ zero_extend 2))))']
+    for cls, text in texts + [(None, m) for m in malformed]:
+        exprs = impl.parse(text)
+        smtlib.collect_information(exprs)
+        for node in impl.nodes.dfs(exprs):
+            for c, code in RW.items():
+                if cls is not None and c != cls and rng.random() < 0.8:
+                    continue
+                m = objs[c]
+                try:
+                    with common.time_limit(5):
+                        got = [impl.to_shape(sp.substs[node.id]) for sp in (m.mutations(node) if m.filter(node) else [])]
+                    got = [1, w_shapes(got)]
+                except Exception:  # noqa
+                    got = [0]
+                kids = [] if node.is_leaf() else list(node.data) + [g for ch in node.data if not ch.is_leaf() for g in ch.data]
+                bws, bvs = [], []
+                for ch in kids:
+                    try:
+                        bws.append([w_shape(impl.to_shape(ch)), smtlib.get_bv_width(ch)])
+                        so = smtlib.get_sort(ch)
+                        if so is not None and smtlib.is_bv_sort(so):
+                            bvs.append(w_shape(impl.to_shape(ch)))
+                    except Exception:  # noqa
+                        pass
+                rcalls.append((code, [w_shape(impl.to_shape(node)), bws, bvs]))
+                rmeta.append((c, str(node)[:200], got))
+    rres = model.batch(rcalls)
+    for (c, node, want), got in zip(rmeta, rres):
+        ctx.count('rewrite-model comparisons')
+        if got != want:
+            ctx.disagree(f'mutations of {c}', input=node, impl=repr(want)[:400], model=repr(got)[:400])
     # (1) sorts
     tres = model.batch(tcalls)
     sort_checked = 0
@@ -187,7 +234,42 @@ def run(ctx):
                           observed=f'replacement {smtgen.render_shape(r_shape(tcalls[k + 1][1][2]))} has sort {None if sb is None else smtgen.render_shape(sb)}',
                           expected=f'sort {smtgen.render_shape(sa)}')
     ctx.count('pairs re-typed', sort_checked)
-    # (2) values
+    # (2a) values, by the extracted evaluator of Spec/Semantics.v under random assignments (Core/Ints/BV fragment)
+    def rand_value(so):
+        if so == 'Bool':
+            return [0, rng.randrange(2)]
+        if so == 'Int':
+            return [1, rng.choice([0, 1, 2, 7, 100, 3])]
+        if smtgen.is_bv(so):
+            n = int(so[2])
+            return [2, n, rng.choice([0, 2 ** n - 1, 2 ** (n - 1), rng.randrange(2 ** n)])]
+        return None
+    ecalls, emeta = [], []
+    for (decls, scope, a, b), (cls, text, _, _, capture) in zip(queries, qmeta):
+        syms = [(d[1], d[2] if d[0] == 'declare-const' else d[3]) for d in decls if d[0] in ('declare-const', 'declare-fun') and (d[0] == 'declare-const' or d[2] == ())]
+        syms += [(n, so) for n, so in scope]
+        for _ in range(4):
+            rho = []
+            for n, so in syms:
+                v = rand_value(so)
+                if v is not None:
+                    rho.append([w_str(n), v])
+            ecalls.append((59, [rho, w_shape(a)]))
+            ecalls.append((59, [rho, w_shape(b)]))
+            emeta.append((cls, text, a, b, capture))
+    eres = model.batch(ecalls)
+    evaluated = 0
+    for k, (cls, text, a, b, capture) in enumerate(emeta):
+        va, vb = eres[2 * k], eres[2 * k + 1]
+        if va == [] or vb == []:
+            continue
+        evaluated += 1
+        if va != vb:
+            ctx.violation('impl-violation', finding_key='F19-inlining-captures-bound-symbol' if capture else None, input=text, mutator=cls,
+                          term=smtgen.render_shape(a), replacement=smtgen.render_shape(b),
+                          observed=f'values differ under an assignment (Spec/Semantics.eval): {va} vs {vb}', expected='same value')
+    ctx.count('pairs evaluated by the extracted evaluator', evaluated)
+    # (2b) values, z3
     zres = z3_batch(queries)
     for (cls, text, a, b, capture), r in zip(qmeta, zres):
         first = r.split('\n')[0] if r else ''
